@@ -1,4 +1,4 @@
-import NitroVerif.Lemmas.CheckOpSubscription
+import NitroVerif.Lemmas.CheckOpSoundWitness
 /-!
 # C03 — `check` accepts no operation that violates an implemented validation rule
 
@@ -14,10 +14,11 @@ field / directive / input object). Helper lemmas live in `Lemmas/CheckOp*.lean`:
 (`CheckOpWalk`), spread handler / reachability / closures (`CheckOpReach`), "every selection set of the
 document was visited" (`CheckOpVisited`), directive and argument sites (`CheckOpSites`), applicability of
 spreads (`CheckOpApply`), argument names by counting (`CheckOpArgs`), values and variable usages
-(`CheckOpValues*`), subscription root keys (`CheckOpSubscription`).
+(`CheckOpValues*`), subscription root keys (`CheckOpSubscription`), the "at least one root field" half of
+5.2.3.1 under `Doc.NonEmptySelections` (`CheckOpSoundNonEmpty`), fuel adequacy (`CheckOpSoundFuel`).
 -/
 namespace NitroVerif.CheckOp
-open NitroVerif.Gql NitroVerif.CheckCommon NitroVerif.Valid
+open NitroVerif.Gql NitroVerif.CheckCommon NitroVerif.Valid NitroVerif.CheckOp.Witness
 
 /-! ### witnesses used by the non-vacuity examples -/
 
@@ -55,6 +56,10 @@ theorem C03_rule_5_2_1_1 (S : Schema) (D : Doc) (h : checkOp S D = []) : rule_5_
   have := (checkDefs_opNames (S := S) (D := D) D [] h).2
   simpa [rule_5_2_1_1, opNames, opNamesOf, ops_eq] using this
 
+/-- non-vacuity of `C03_rule_5_2_1_1`: the accepted witness has three named operations; and the rule has teeth (`wBad "5.2.1.1"` violates it and is rejected) -/
+example : SchemaValid wSchema ∧ checkOp wSchema wDoc = [] ∧ 2 ≤ (opNames wDoc).length := by decide +kernel
+example : rule_5_2_1_1 wSchema (wBad "5.2.1.1") = false ∧ checkOp wSchema (wBad "5.2.1.1") ≠ [] := by decide +kernel
+
 /-- 5.2.2.1 Lone Anonymous Operation: if the checker reports nothing and the document contains an anonymous
     operation, that operation is the only operation of the document. -/
 theorem C03_rule_5_2_2_1 (S : Schema) (D : Doc) (h : checkOp S D = []) : rule_5_2_2_1 S D = true := by
@@ -77,11 +82,19 @@ theorem C03_rule_5_2_2_1 (S : Schema) (D : Doc) (h : checkOp S D = []) : rule_5_
       · simp [hl] at he
     simp [ops_eq, this]
 
+/-- non-vacuity of `C03_rule_5_2_2_1`: a lone anonymous operation is accepted; and the rule has teeth (`wBad "5.2.2.1"` violates it and is rejected) -/
+example : checkOp wSchema wAnonDoc = [] ∧ (Valid.ops wAnonDoc).any (·.name.isNone) = true := by decide +kernel
+example : rule_5_2_2_1 wSchema (wBad "5.2.2.1") = false ∧ checkOp wSchema (wBad "5.2.2.1") ≠ [] := by decide +kernel
+
 /-- 5.5.1.1 Fragment Name Uniqueness: if the checker reports nothing, no two fragment definitions of the
     document have the same name. -/
 theorem C03_rule_5_5_1_1 (S : Schema) (D : Doc) (h : checkOp S D = []) : rule_5_5_1_1 S D = true := by
   have := (checkDefs_fragNames (S := S) (D := D) D [] h).2
   simpa [rule_5_5_1_1, fragNamesOf, frags_eq] using this
+
+/-- non-vacuity of `C03_rule_5_5_1_1`: the accepted witness defines six fragments; and the rule has teeth (`wBad "5.5.1.1"` violates it and is rejected) -/
+example : SchemaValid wSchema ∧ checkOp wSchema wDoc = [] ∧ 2 ≤ (Valid.frags wDoc).length := by decide +kernel
+example : rule_5_5_1_1 wSchema (wBad "5.5.1.1") = false ∧ checkOp wSchema (wBad "5.5.1.1") ≠ [] := by decide +kernel
 
 /-- 5.8.1 Variable Uniqueness: if the checker reports nothing, the variables of every operation have
     pairwise different names. -/
@@ -90,6 +103,10 @@ theorem C03_rule_5_8_1 (S : Schema) (D : Doc) (h : checkOp S D = []) : rule_5_8_
   rw [List.all_eq_true]
   intro o ho
   exact (checkVariablesAux_nil o.vars [] (vars_of_accepted h o ho)).2.1
+
+/-- non-vacuity of `C03_rule_5_8_1`: an operation of the accepted witness declares three variables; and the rule has teeth (`wBad "5.8.1"` violates it and is rejected) -/
+example : SchemaValid wSchema ∧ checkOp wSchema wDoc = [] ∧ 2 ≤ maxVars wDoc := by decide +kernel
+example : rule_5_8_1 wSchema (wBad "5.8.1") = false ∧ checkOp wSchema (wBad "5.8.1") ≠ [] := by decide +kernel
 
 /-- 5.8.2 Variables Are Input Types: if the checker reports nothing, the (unwrapped) type of every variable
     of every operation is a scalar, enum or input-object type defined in the schema. -/
@@ -104,6 +121,10 @@ theorem C03_rule_5_8_2 (S : Schema) (D : Doc) (h : checkOp S D = []) : rule_5_8_
   cases hk : S.kindOf? v.ty.unwrapped with
   | none => simp [hk] at this
   | some k => simpa [hk] using this
+
+/-- non-vacuity of `C03_rule_5_8_2`: the accepted witness declares variables of scalar and input-object type; and the rule has teeth (`wBad "5.8.2"` violates it and is rejected) -/
+example : SchemaValid wSchema ∧ checkOp wSchema wDoc = [] ∧ 1 ≤ maxVars wDoc := by decide +kernel
+example : rule_5_8_2 wSchema (wBad "5.8.2") = false ∧ checkOp wSchema (wBad "5.8.2") ≠ [] := by decide +kernel
 
 /-! ### fragment targets (the part of 5.5.1.2 / 5.5.1.3 about fragment DEFINITIONS) -/
 
@@ -129,6 +150,11 @@ theorem C03_fragment_definition_targets (S : Schema) (D : Doc) (h : checkOp S D 
     simp only [ht] at hb
     cases hk : t.kind <;> simp_all [directFields]
 
+/-- non-vacuity of `C03_fragment_definition_targets`: the accepted witness has fragment definitions on object,
+    interface and union types; a fragment on a scalar is rejected -/
+example : checkOp wSchema wDoc = [] ∧ 6 ≤ (Valid.frags wDoc).length := by decide +kernel
+example : checkOp wSchema (wBad "5.5.1.3") ≠ [] := by decide +kernel
+
 /-! ### selection sets: every selection set of the document is visited with its correct type in scope
 (`Lemmas/CheckOpWalk.lean`, `CheckOpReach.lean`, `CheckOpVisited.lean`) -/
 
@@ -151,6 +177,10 @@ theorem C03_rule_5_3_1 (S : Schema) (D : Doc) (hS : SchemaValid S) (h : checkOp 
     | spread => rfl
     | inline => rfl
 
+/-- non-vacuity of `C03_rule_5_3_1`: the accepted witness selects fields (on objects, an interface, a union, in fragments); and the rule has teeth (`wBad "5.3.1"` violates it and is rejected) -/
+example : SchemaValid wSchema ∧ checkOp wSchema wDoc = [] ∧ 20 ≤ nFields wSchema wDoc := by decide +kernel
+example : rule_5_3_1 wSchema (wBad "5.3.1") = false ∧ checkOp wSchema (wBad "5.3.1") ≠ [] := by decide +kernel
+
 /-- 5.3.3 Leaf Field Selections: if the checker reports nothing, every selected field of scalar or enum type
     has no sub-selection and every selected field of object, interface or union type has one. -/
 theorem C03_rule_5_3_3 (S : Schema) (D : Doc) (hS : SchemaValid S) (h : checkOp S D = []) : rule_5_3_3 S D = true := by
@@ -172,6 +202,10 @@ theorem C03_rule_5_3_3 (S : Schema) (D : Doc) (hS : SchemaValid S) (h : checkOp 
     | spread => rfl
     | inline => rfl
 
+/-- non-vacuity of `C03_rule_5_3_3`: the accepted witness has leaf fields and fields with a sub-selection; and the rule has teeth (`wBad "5.3.3"` violates it and is rejected) -/
+example : SchemaValid wSchema ∧ checkOp wSchema wDoc = [] ∧ 1 ≤ nLeafFields wSchema wDoc ∧ 1 ≤ nFieldsWithSel wSchema wDoc := by decide +kernel
+example : rule_5_3_3 wSchema (wBad "5.3.3") = false ∧ checkOp wSchema (wBad "5.3.3") ≠ [] := by decide +kernel
+
 /-- 5.5.1.2 Fragment Spread Type Existence: if the checker reports nothing, the type condition of every fragment
     definition and of every inline fragment is a type of the schema. -/
 theorem C03_rule_5_5_1_2 (S : Schema) (D : Doc) (hS : SchemaValid S) (h : checkOp S D = []) : rule_5_5_1_2 S D = true := by
@@ -181,6 +215,10 @@ theorem C03_rule_5_5_1_2 (S : Schema) (D : Doc) (hS : SchemaValid S) (h : checkO
   obtain ⟨ct, hct, _⟩ := typeConditions_ok hS h c hc
   simp [hct]
 
+/-- non-vacuity of `C03_rule_5_5_1_2`: the accepted witness has type conditions on fragment definitions AND on inline fragments; and the rule has teeth (`wBad "5.5.1.2"` violates it and is rejected) -/
+example : SchemaValid wSchema ∧ checkOp wSchema wDoc = [] ∧ (Valid.frags wDoc).length < (typeConditions wSchema wDoc).length := by decide +kernel
+example : rule_5_5_1_2 wSchema (wBad "5.5.1.2") = false ∧ checkOp wSchema (wBad "5.5.1.2") ≠ [] := by decide +kernel
+
 /-- 5.5.1.3 Fragments on Composite Types: if the checker reports nothing, every type condition is an object,
     interface or union type. -/
 theorem C03_rule_5_5_1_3 (S : Schema) (D : Doc) (hS : SchemaValid S) (h : checkOp S D = []) : rule_5_5_1_3 S D = true := by
@@ -189,6 +227,10 @@ theorem C03_rule_5_5_1_3 (S : Schema) (D : Doc) (hS : SchemaValid S) (h : checkO
   intro c hc
   obtain ⟨ct, hct, hd⟩ := typeConditions_ok hS h c hc
   simp [Schema.kindOf?, hct, directFields_isSome_composite hd]
+
+/-- non-vacuity of `C03_rule_5_5_1_3`: the accepted witness has type conditions on object, interface and union types; and the rule has teeth (`wBad "5.5.1.3"` violates it and is rejected) -/
+example : SchemaValid wSchema ∧ checkOp wSchema wDoc = [] ∧ (Valid.frags wDoc).length < (typeConditions wSchema wDoc).length := by decide +kernel
+example : rule_5_5_1_3 wSchema (wBad "5.5.1.3") = false ∧ checkOp wSchema (wBad "5.5.1.3") ≠ [] := by decide +kernel
 
 /-- 5.5.2.1 Fragment Spread Target Defined: if the checker reports nothing, every fragment spread anywhere in
     the document names a fragment the document defines. -/
@@ -210,6 +252,10 @@ theorem C03_rule_5_5_2_1 (S : Schema) (D : Doc) (hS : SchemaValid S) (h : checkO
       obtain ⟨_, f, _, _, hm, _⟩ := handler_quiet hA hf hq
       simp [frag?_eq_fragMap (accepted_nodup h), hm]
 
+/-- non-vacuity of `C03_rule_5_5_2_1`: the accepted witness spreads fragments; and the rule has teeth (`wBad "5.5.2.1"` violates it and is rejected) -/
+example : SchemaValid wSchema ∧ checkOp wSchema wDoc = [] ∧ 1 ≤ nSpreads wSchema wDoc := by decide +kernel
+example : rule_5_5_2_1 wSchema (wBad "5.5.2.1") = false ∧ checkOp wSchema (wBad "5.5.2.1") ≠ [] := by decide +kernel
+
 /-- 5.5.2.2 Fragment Spreads Must Not Form Cycles: if the checker reports nothing, no fragment definition reaches
     itself through spreads (the seen-stack argument: the walk of a fragment's selection set has the fragment's name
     on the stack, the stack only grows along spreads, and a spread of a name on the stack is a diagnostic). -/
@@ -228,6 +274,10 @@ theorem C03_rule_5_5_2_2 (S : Schema) (D : Doc) (hS : SchemaValid S) (h : checkO
     have : seen.contains f.name = true := by simpa using hmem
     rw [this] at hno; cases hno
 
+/-- non-vacuity of `C03_rule_5_5_2_2`: a fragment of the accepted witness spreads another fragment; and the rule has teeth (`wBad "5.5.2.2"` violates it and is rejected) -/
+example : SchemaValid wSchema ∧ checkOp wSchema wDoc = [] ∧ 1 ≤ nSpreadingFrags wDoc := by decide +kernel
+example : rule_5_5_2_2 wSchema (wBad "5.5.2.2") = false ∧ checkOp wSchema (wBad "5.5.2.2") ≠ [] := by decide +kernel
+
 /-! ### directives at every location, required arguments, applicability of spreads (`Lemmas/CheckOpSites.lean`, `CheckOpApply.lean`) -/
 
 /-- 5.7.1 Directives Are Defined: if the checker reports nothing, every directive applied anywhere in the
@@ -243,6 +293,10 @@ theorem C03_rule_5_7_1 (S : Schema) (D : Doc) (hS : SchemaValid S) (h : checkOp 
   obtain ⟨dd, hdd, _⟩ := hfacts d hd
   simp [hdd]
 
+/-- non-vacuity of `C03_rule_5_7_1`: the accepted witness applies directives at six kinds of location; and the rule has teeth (`wBad "5.7.1"` violates it and is rejected) -/
+example : SchemaValid wSchema ∧ checkOp wSchema wDoc = [] ∧ 6 ≤ (dirLocations wSchema wDoc).length ∧ 9 ≤ nDirectives wSchema wDoc := by decide +kernel
+example : rule_5_7_1 wSchema (wBad "5.7.1") = false ∧ checkOp wSchema (wBad "5.7.1") ≠ [] := by decide +kernel
+
 /-- 5.7.2 Directives Are in Valid Locations: if the checker reports nothing, every directive applied anywhere
     in the document is declared for the location it is applied at. -/
 theorem C03_rule_5_7_2 (S : Schema) (D : Doc) (hS : SchemaValid S) (h : checkOp S D = []) : rule_5_7_2 S D = true := by
@@ -255,6 +309,10 @@ theorem C03_rule_5_7_2 (S : Schema) (D : Doc) (hS : SchemaValid S) (h : checkOp 
   obtain ⟨dd, hdd, hl, _⟩ := hfacts d hd
   simp only [hdd]; exact hl
 
+/-- non-vacuity of `C03_rule_5_7_2`: the accepted witness applies directives at six kinds of location; and the rule has teeth (`wBad "5.7.2"` violates it and is rejected) -/
+example : SchemaValid wSchema ∧ checkOp wSchema wDoc = [] ∧ 6 ≤ (dirLocations wSchema wDoc).length := by decide +kernel
+example : rule_5_7_2 wSchema (wBad "5.7.2") = false ∧ checkOp wSchema (wBad "5.7.2") ≠ [] := by decide +kernel
+
 /-- 5.7.3 Directives Are Unique per Location: if the checker reports nothing, no non-repeatable directive is
     applied twice at the same location. -/
 theorem C03_rule_5_7_3 (S : Schema) (D : Doc) (hS : SchemaValid S) (h : checkOp S D = []) : rule_5_7_3 S D = true := by
@@ -263,6 +321,10 @@ theorem C03_rule_5_7_3 (S : Schema) (D : Doc) (hS : SchemaValid S) (h : checkOp 
   intro site hs
   obtain ⟨A, vars, _, _, hnd⟩ := dirSites_checked hS h site hs
   exact hnd
+
+/-- non-vacuity of `C03_rule_5_7_3`: the accepted witness applies a repeatable directive twice at one location (and non-repeatable ones once); and the rule has teeth (`wBad "5.7.3"` violates it and is rejected) -/
+example : SchemaValid wSchema ∧ checkOp wSchema wDoc = [] ∧ 1 ≤ nRepeated wSchema wDoc := by decide +kernel
+example : rule_5_7_3 wSchema (wBad "5.7.3") = false ∧ checkOp wSchema (wBad "5.7.3") ≠ [] := by decide +kernel
 
 /-- 5.4.2.1 Required Arguments: if the checker reports nothing, every field and directive of the document is
     given all its required arguments (non-null type, no default value). -/
@@ -276,6 +338,10 @@ theorem C03_rule_5_4_2_1 (S : Schema) (D : Doc) (hS : SchemaValid S) (h : checkO
   cases hreq : (d.ty.isNonNull && d.default.isNone) with
   | false => simp
   | true => simpa using (checkArguments_quiet hA hq).1 d hd hreq
+
+/-- non-vacuity of `C03_rule_5_4_2_1`: the argument sites of the accepted witness have required argument definitions; and the rule has teeth (`wBad "5.4.2.1"` violates it and is rejected) -/
+example : SchemaValid wSchema ∧ checkOp wSchema wDoc = [] ∧ 1 ≤ nRequiredArgDefs wSchema wDoc := by decide +kernel
+example : rule_5_4_2_1 wSchema (wBad "5.4.2.1") = false ∧ checkOp wSchema (wBad "5.4.2.1") ≠ [] := by decide +kernel
 
 /-- 5.5.2.3 Fragment Spread Is Possible: if the checker reports nothing, for every fragment spread and inline
     fragment of the document the possible types of the type in scope and of the fragment's type condition
@@ -307,6 +373,10 @@ theorem C03_rule_5_5_2_3 (S : Schema) (D : Doc) (hS : SchemaValid S) (h : checkO
         obtain ⟨_, ct, hct, hq, _⟩ := hl
         exact applicability_canApply hA hn hct hq
 
+/-- non-vacuity of `C03_rule_5_5_2_3`: the accepted witness narrows the type in scope (interface → object, union → object, union → interface, object → interface); and the rule has teeth (`wBad "5.5.2.3"` violates it and is rejected) -/
+example : SchemaValid wSchema ∧ checkOp wSchema wDoc = [] ∧ 4 ≤ nNarrowing wSchema wDoc := by decide +kernel
+example : rule_5_5_2_3 wSchema (wBad "5.5.2.3") = false ∧ checkOp wSchema (wBad "5.5.2.3") ≠ [] := by decide +kernel
+
 /-! ### argument names (`Lemmas/CheckOpArgs.lean`: the unknown-argument test counts matched definitions) -/
 
 /-- 5.4.1 Argument Names: if the checker reports nothing, every argument given to a field or a directive is
@@ -319,6 +389,10 @@ theorem C03_rule_5_4_1 (S : Schema) (D : Doc) (hS : SchemaValid S) (h : checkOp 
   rw [List.all_eq_true]
   intro a ha
   exact (checkArguments_names hA hq).2 (argSites_defs_nodup hS D site hs) a ha
+
+/-- non-vacuity of `C03_rule_5_4_1`: the accepted witness gives arguments to fields and directives; and the rule has teeth (`wBad "5.4.1"` violates it and is rejected) -/
+example : SchemaValid wSchema ∧ checkOp wSchema wDoc = [] ∧ 10 ≤ nArgs wSchema wDoc := by decide +kernel
+example : rule_5_4_1 wSchema (wBad "5.4.1") = false ∧ checkOp wSchema (wBad "5.4.1") ≠ [] := by decide +kernel
 
 /-- 5.4.2 Argument Uniqueness: if the checker reports nothing, no field or directive of the document is given
     two arguments with the same name. -/
@@ -349,6 +423,10 @@ theorem C03_rule_5_4_2 (S : Schema) (D : Doc) (hS : SchemaValid S) (h : checkOp 
     obtain ⟨dd, _, _, hq⟩ := hfacts d hd
     exact (checkArguments_names hA hq).1
 
+/-- non-vacuity of `C03_rule_5_4_2`: the accepted witness has an argument list with three arguments; and the rule has teeth (`wBad "5.4.2"` violates it and is rejected) -/
+example : SchemaValid wSchema ∧ checkOp wSchema wDoc = [] ∧ 1 ≤ nMultiArgLists wSchema wDoc := by decide +kernel
+example : rule_5_4_2 wSchema (wBad "5.4.2") = false ∧ checkOp wSchema (wBad "5.4.2") ≠ [] := by decide +kernel
+
 /-! ### values and variable usages (`Lemmas/CheckOpValues*.lean`: `check_value` against the specification input coercion and `IsVariableUsageAllowed`) -/
 
 /-- 5.6.1 Values of Correct Type: if the checker reports nothing, every argument value (of fields and of
@@ -357,20 +435,36 @@ theorem C03_rule_5_4_2 (S : Schema) (D : Doc) (hS : SchemaValid S) (h : checkOp 
 theorem C03_rule_5_6_1 (S : Schema) (D : Doc) (hS : SchemaValid S) (h : checkOp S D = []) : rule_5_6_1 S D = true :=
   valueRule_of_ok "5.6.1" (typedValues_ok hS h)
 
+/-- non-vacuity of `C03_rule_5_6_1`: the accepted witness has typed values (scalars, enum, list, input objects, variables, a variable default); and the rule has teeth (`wBad "5.6.1"` violates it and is rejected) -/
+example : SchemaValid wSchema ∧ checkOp wSchema wDoc = [] ∧ 10 ≤ nTypedValues wSchema wDoc := by decide +kernel
+example : rule_5_6_1 wSchema (wBad "5.6.1") = false ∧ checkOp wSchema (wBad "5.6.1") ≠ [] := by decide +kernel
+
 /-- 5.6.2 Input Object Field Names: if the checker reports nothing, every field of every input-object literal
     is defined by the input-object type expected at its position. -/
 theorem C03_rule_5_6_2 (S : Schema) (D : Doc) (hS : SchemaValid S) (h : checkOp S D = []) : rule_5_6_2 S D = true :=
   valueRule_of_ok "5.6.2" (typedValues_ok hS h)
+
+/-- non-vacuity of `C03_rule_5_6_2`: the accepted witness has input-object literals; and the rule has teeth (`wBad "5.6.2"` violates it and is rejected) -/
+example : SchemaValid wSchema ∧ checkOp wSchema wDoc = [] ∧ 2 ≤ nObjectValues wSchema wDoc := by decide +kernel
+example : rule_5_6_2 wSchema (wBad "5.6.2") = false ∧ checkOp wSchema (wBad "5.6.2") ≠ [] := by decide +kernel
 
 /-- 5.6.3 Input Object Field Uniqueness: if the checker reports nothing, no input-object literal names a field
     twice. -/
 theorem C03_rule_5_6_3 (S : Schema) (D : Doc) (hS : SchemaValid S) (h : checkOp S D = []) : rule_5_6_3 S D = true :=
   valueRule_of_ok "5.6.3" (typedValues_ok hS h)
 
+/-- non-vacuity of `C03_rule_5_6_3`: the accepted witness has an input-object literal with two fields; and the rule has teeth (`wBad "5.6.3"` violates it and is rejected) -/
+example : SchemaValid wSchema ∧ checkOp wSchema wDoc = [] ∧ 1 ≤ nBigObjectValues wSchema wDoc := by decide +kernel
+example : rule_5_6_3 wSchema (wBad "5.6.3") = false ∧ checkOp wSchema (wBad "5.6.3") ≠ [] := by decide +kernel
+
 /-- 5.6.4 Input Object Required Fields: if the checker reports nothing, every input-object literal provides
     all required fields (non-null type, no default value) of its type. -/
 theorem C03_rule_5_6_4 (S : Schema) (D : Doc) (hS : SchemaValid S) (h : checkOp S D = []) : rule_5_6_4 S D = true :=
   valueRule_of_ok "5.6.4" (typedValues_ok hS h)
+
+/-- non-vacuity of `C03_rule_5_6_4`: the accepted witness has input-object literals of a type with a required field (one omits the optional field); and the rule has teeth (`wBad "5.6.4"` violates it and is rejected) -/
+example : SchemaValid wSchema ∧ checkOp wSchema wDoc = [] ∧ 2 ≤ nObjectValues wSchema wDoc := by decide +kernel
+example : rule_5_6_4 wSchema (wBad "5.6.4") = false ∧ checkOp wSchema (wBad "5.6.4") ≠ [] := by decide +kernel
 
 /-- 5.8.3 All Variable Uses Defined: if the checker reports nothing, every variable used in the scope of an
     operation (its selection sets and directives, and those of every fragment it reaches) is defined by that
@@ -387,6 +481,10 @@ theorem C03_rule_5_8_3 (S : Schema) (D : Doc) (hS : SchemaValid S) (h : checkOp 
     simpa using this
   exact List.any_eq_true.mpr ⟨vd, List.mem_of_find?_eq_some hvd, by simpa using hp⟩
 
+/-- non-vacuity of `C03_rule_5_8_3`: the accepted witness uses variables (in field and directive arguments); and the rule has teeth (`wBad "5.8.3"` violates it and is rejected) -/
+example : SchemaValid wSchema ∧ checkOp wSchema wDoc = [] ∧ 3 ≤ nVarUses wSchema wDoc := by decide +kernel
+example : rule_5_8_3 wSchema (wBad "5.8.3") = false ∧ checkOp wSchema (wBad "5.8.3") ≠ [] := by decide +kernel
+
 /-- 5.8.5 All Variable Usages Are Allowed: if the checker reports nothing, every variable usage in the scope of
     an operation satisfies the specification's `IsVariableUsageAllowed` (type compatibility, with the
     non-null-default exceptions). -/
@@ -399,12 +497,16 @@ theorem C03_rule_5_8_5 (S : Schema) (D : Doc) (hS : SchemaValid S) (h : checkOp 
   obtain ⟨vd, hvd, hal⟩ := opVarUses_ok hS h (by rw [← ops_eq]; exact ho) u hu
   simp only [hvd]; exact hal
 
+/-- non-vacuity of `C03_rule_5_8_5`: the accepted witness uses a nullable variable with a default at a non-null location; and the rule has teeth (`wBad "5.8.5"` violates it and is rejected) -/
+example : SchemaValid wSchema ∧ checkOp wSchema wDoc = [] ∧ 1 ≤ nDefaultRescued wSchema wDoc := by decide +kernel
+example : rule_5_8_5 wSchema (wBad "5.8.5") = false ∧ checkOp wSchema (wBad "5.8.5") ≠ [] := by decide +kernel
+
 /-! ### subscriptions (`Lemmas/CheckOpSubscription.lean`) -/
 
 /-- 5.2.3.1 Single Root Field, the part a checker has to test: if the checker reports nothing, the root selection
     set of every subscription collects AT MOST ONE response key (spec `CollectFields`, through inline fragments
-    and fragment spreads). That it collects at least one follows from the grammar (selection sets are non-empty)
-    together with 5.5.2.1 / 5.5.2.2 and is not proved here — see the OPEN block. -/
+    and fragment spreads). This half needs no hypothesis on the document; that at least one key is collected needs
+    the grammar's non-empty selection sets — `C03_rule_5_2_3_1` below. -/
 theorem C03_rule_5_2_3_1_at_most_one (S : Schema) (D : Doc) (h : checkOp S D = []) :
     ∀ o ∈ Valid.ops D, o.kind = .subscription → (Valid.rootKeys D o.sel).length ≤ 1 := by
   intro o ho hkind
@@ -428,6 +530,11 @@ theorem C03_rule_5_2_3_1_at_most_one (S : Schema) (D : Doc) (h : checkOp S D = [
     simp only [hdf] at hwalk
     exact flatKey_collected admissible_none (accepted_condsDefined h) hflat _ _ _ _ hdf (quiet_none_iff.mpr hwalk)
 
+/-- non-vacuity of `C03_rule_5_2_3_1_at_most_one`: the accepted witness has a subscription whose single root key is
+    found through a fragment spread and an inline fragment; two root fields (one through a spread) are rejected -/
+example : checkOp wSchema wDoc = [] ∧ 1 ≤ nSubsThroughSpread wDoc := by decide +kernel
+example : rule_5_2_3_1 wSchema (wBad "5.2.3.1") = false ∧ checkOp wSchema (wBad "5.2.3.1") ≠ [] := by decide +kernel
+
 /-! ### directives on operations and variable definitions (part of 5.7.1 – 5.7.3) -/
 
 /-- 5.7.1 – 5.7.3 on the definition-level directive sites of operations: if the checker reports nothing, the
@@ -449,6 +556,12 @@ theorem C03_directives_on_operations (S : Schema) (D : Doc) (h : checkOp S D = [
     rw [this]
     exact dirSiteOk_of_checkDirectives hdirs
   · exact dirSiteOk_of_checkDirectives (checkVariablesAux_dirs o.vars [] hv v hv')
+
+/-- non-vacuity of `C03_directives_on_operations`: the accepted witness has directives on an operation and on a
+    variable definition; `@skip` on a query is rejected -/
+example : checkOp wSchema wDoc = [] ∧ "QUERY" ∈ dirLocations wSchema wDoc ∧ "VARIABLE_DEFINITION" ∈ dirLocations wSchema wDoc := by
+  decide +kernel
+example : checkOp wSchema (wBad "5.7.2") ≠ [] := by decide +kernel
 
 /-! ### conjunction -/
 
@@ -492,19 +605,215 @@ theorem C03_accepts_only_valid_proved (S : Schema) (D : Doc) (hS : SchemaValid S
   · exact C03_rule_5_8_3 S D hS h
   · exact C03_rule_5_8_5 S D hS h
 
+/-! ### 5.2.3.1 in full, and the conjunction over ALL implemented rules -/
+
+/-- `subscription S { tick }` against a schema with a `Subscription` type; and the same with an EMPTY root selection
+    set, which only the abstract syntax can express -/
+def exSubSchema : Schema := ⟨exSchema.items ++ [
+  .typeDef { kind := .object, name := "Subscription", fields := [{ name := "tick", ty := .named "Int" {} }] }]⟩
+def exSubDoc : Doc := [.op { kind := .subscription, name := some ("S", {}), sel := [.field none "tick" {} [] [] none] }]
+def exSubEmptyDoc : Doc := [.op { kind := .subscription, name := some ("S", {}), sel := [] }]
+
+/-- 5.2.3.1 Single Root Field: if the checker reports nothing and every selection set of the document is
+    non-empty (as the grammar `SelectionSet = "{" Selection+ "}"` guarantees for every parsed document), the root
+    selection set of every subscription collects EXACTLY ONE response key (spec `CollectFields`, through inline
+    fragments and fragment spreads). "At most one" is what the checker tests; "at least one" is found by following
+    first selections: a spread the quiet walk went through consumed one unit of its fuel, and the reference
+    validator's closure runs exactly that many rounds. No hypothesis on the schema. -/
+theorem C03_rule_5_2_3_1 (S : Schema) (D : Doc) (hD : Doc.NonEmptySelections D) (h : checkOp S D = []) :
+    rule_5_2_3_1 S D = true := by
+  unfold rule_5_2_3_1
+  rw [List.all_eq_true]
+  intro o ho
+  cases hk : o.kind with
+  | query => rfl
+  | mutation => rfl
+  | subscription =>
+    have h1 := C03_rule_5_2_3_1_at_most_one S D h o ho hk
+    have h2 := rootKeys_nonempty h hD (by rw [← ops_eq]; exact ho)
+    have : (Valid.rootKeys D o.sel).length = 1 := by omega
+    simp [this]
+
+/-- the hypotheses of `C03_rule_5_2_3_1` are satisfiable by a document with a subscription -/
+example : Doc.NonEmptySelections exSubDoc ∧ checkOp exSubSchema exSubDoc = [] := by decide
+example : Doc.NonEmptySelections exDoc := by decide
+
+/-- The hypothesis `Doc.NonEmptySelections` of `C03_rule_5_2_3_1` cannot be dropped: the abstract document
+    `subscription S { }` (empty root selection set — not producible by the parser) is accepted by the checker model
+    against a valid schema and violates 5.2.3.1 as the reference validator states it (zero root fields). -/
+theorem C03_rule_5_2_3_1_needs_nonempty :
+    SchemaValid exSubSchema ∧ checkOp exSubSchema exSubEmptyDoc = [] ∧ rule_5_2_3_1 exSubSchema exSubEmptyDoc = false ∧
+      ¬ Doc.NonEmptySelections exSubEmptyDoc := by decide
+
+/-- **C03.** A document the checker accepts against a valid schema, all of whose selection sets are non-empty
+    (true of every parsed document), satisfies EVERY implemented validation rule of the reference validator
+    (all 25 of `ImplementedRules`). -/
+theorem C03_accepts_only_valid (S : Schema) (D : Doc) (hS : SchemaValid S) (hD : Doc.NonEmptySelections D)
+    (h : checkOp S D = []) : ∀ r ∈ ImplementedRules, Holds r S D := by
+  intro r hr
+  by_cases h1 : r = "5.2.3.1"
+  · subst h1
+    intro f hf
+    simp only [ruleTable, extraRuleTable, List.cons_append, List.nil_append, List.mem_cons, Prod.mk.injEq,
+      List.not_mem_nil, or_false] at hf
+    simp at hf
+    subst hf
+    exact C03_rule_5_2_3_1 S D hD h
+  · apply C03_accepts_only_valid_proved S D hS h
+    simp only [ImplementedRules, ruleTable, List.map_cons, List.map_nil, List.mem_cons, List.not_mem_nil, or_false] at hr
+    simp only [ProvedRules, List.mem_cons, List.not_mem_nil, or_false]
+    rcases hr with rfl | rfl | rfl | rfl | rfl | rfl | rfl | rfl | rfl | rfl | rfl | rfl | rfl | rfl | rfl | rfl | rfl | rfl | rfl | rfl | rfl | rfl | rfl | rfl | rfl <;> simp at h1 ⊢
+
+/-- the hypotheses of `C03_accepts_only_valid` are satisfiable together, by the witness document that contains every
+    construct the rules talk about (see the examples beside each rule theorem); its subscription finds its root key
+    through a spread -/
+example : SchemaValid exSubSchema ∧ Doc.NonEmptySelections exSubDoc ∧ checkOp exSubSchema exSubDoc = [] := by decide
+example : SchemaValid wSchema ∧ Doc.NonEmptySelections wDoc ∧ checkOp wSchema wDoc = [] ∧ 1 ≤ nSubsThroughSpread wDoc := by
+  decide +kernel
+/-- every implemented rule can fail, and its violating witness is rejected by the model -/
+example : ∀ r ∈ ImplementedRules, ruleOf r wSchema (wBad r) = false ∧ checkOp wSchema (wBad r) ≠ [] := by decide +kernel
+
+/-! ### fuel adequacy of the model (`Lemmas/CheckOpSoundFuel.lean`) -/
+
+/-- Fuel adequacy: the model's recursion through fragment spreads (main walk and root-key collection of
+    subscriptions) is bounded by a fuel and has an out-of-fuel branch the Rust code does not have. `checkOpX S D n Z ZK`
+    is the model run with fuel `n` and with ARBITRARY behaviours `Z`, `ZK` in the two out-of-fuel branches
+    (`checkOp S D` is the instance `n = fuelFor D`, `Z` = "report RecursingFragmentSpread", `ZK` = "no keys":
+    `checkOp_eq_X`). For every schema and document, every fuel `n ≥ fuelFor D` (= number of fragment definitions
+    + 1) and every `Z`, `ZK`, the diagnostics are those of `checkOp`: the out-of-fuel branches are never evaluated —
+    the stack test fires first, because a stack holds pairwise different fragment-definition names and is therefore
+    never longer than the number of fragment definitions. -/
+theorem checkOp_fuel_irrelevant (S : Schema) (D : Doc) (n : Nat) (Z : SpreadHandler) (ZK : KeysHandler)
+    (hn : fuelFor D ≤ n) : checkOpX S D n Z ZK = checkOp S D := by
+  rw [checkOp_eq_X]
+  exact checkOpX_indep S D Z exhaustedSpread ZK exhaustedKeys hn (Nat.le_refl _)
+
+/-- Fuel adequacy, all three fuels: besides the walk fuel, the model computes `fragments_used_by_operations` (a worklist
+    loop in the Rust code) by a fixed number of rounds (`#fragments + 2`) of a round function. `checkOpXU S D n m Z ZK`
+    is the model with walk fuel `n`, `m` closure rounds and arbitrary out-of-fuel behaviours. For every schema and
+    document, every `n ≥ fuelFor D`, every `m ≥ #fragments + 1` and every `Z`, `ZK` it reports exactly what `checkOp`
+    reports: no verdict of the model depends on a fuel. -/
+theorem checkOp_all_fuels_irrelevant (S : Schema) (D : Doc) (n m : Nat) (Z : SpreadHandler) (ZK : KeysHandler)
+    (hn : fuelFor D ≤ n) (hm : (fragsOf D).length + 1 ≤ m) : checkOpXU S D n m Z ZK = checkOp S D := by
+  rw [checkOpXU_eq_X S D Z ZK hm]
+  exact checkOp_fuel_irrelevant S D n Z ZK hn
+
+/-- The set of used fragments the model computes is a FIXED POINT of its round function — the state in which the
+    worklist loop of `fragments_used_by_operations` stops — and any number of rounds `≥ #fragments + 1` computes it. -/
+theorem usedFragments_fuel_irrelevant (D : Doc) :
+    usedStep D (usedFragments D) = usedFragments D ∧
+    ∀ m, (fragsOf D).length + 1 ≤ m → usedIter D m (usedStart D) = usedFragments D :=
+  ⟨usedFragments_fixed D, fun _ hm => usedFragments_fuel hm⟩
+
+/-- the hypotheses are met by the fuels the model uses, on the witness document with a chain of used fragments
+    (`Q → UF → NF`) and an unused one; with too few rounds the chain is cut and the verdict about `NF` changes -/
+example : fuelFor wDoc ≤ fuelFor wDoc ∧ (fragsOf wDoc).length + 1 ≤ (fragsOf wDoc).length + 2 ∧
+    "NF" ∈ usedFragments wDoc ∧ "Unused" ∉ usedFragments wDoc ∧ "NF" ∉ usedIter wDoc 0 (usedStart wDoc) := by decide +kernel
+
+/-- a two-cycle of fragments: `query { ...F }  fragment F on Query { ...G }  fragment G on Query { ...F }` -/
+def exCycleDoc : Doc := [
+  .op { kind := .query, sel := [.spread "F" {} [] {}] },
+  .frag { name := "F", cond := "Query", sel := [.spread "G" {} [] {}] },
+  .frag { name := "G", cond := "Query", sel := [.spread "F" {} [] {}] }]
+
+/-- the theorem at work: even with SILENT out-of-fuel branches (`Z` reports nothing) the cycle is reported — by the
+    stack test, not by running out of fuel -/
+example : checkOpX exSchema exCycleDoc (fuelFor exCycleDoc) (fun _ _ _ _ _ _ => []) (fun _ _ => []) ≠ [] := by decide
+
+/-- `fuelFor D` is the least fuel with this property: with one unit less the out-of-fuel branch is reached on
+    `query { ...F }  fragment F on Query { ...G }  fragment G on Query { ...H }` (`H` undefined), and the verdict
+    changes (`RecursingFragmentSpread` from the out-of-fuel branch instead of `UnknownFragment`) -/
+example :
+    let D : Doc := [
+      .op { kind := .query, sel := [.spread "F" {} [] {}] },
+      .frag { name := "F", cond := "Query", sel := [.spread "G" {} [] {}] },
+      .frag { name := "G", cond := "Query", sel := [.spread "H" {} [] {}] }]
+    (checkOp exSchema D).map (·.1) = [ErrKind.UnknownFragment] ∧
+    (checkOpX exSchema D (fuelFor D - 1) exhaustedSpread exhaustedKeys).map (·.1) = [ErrKind.RecursingFragmentSpread] := by
+  decide
+
+/-! ### the reference validator's closures are exact (`Lemmas/CheckOpSoundClosure.lean`)
+
+The rule predicates 5.5.2.2, 5.8.3, 5.8.5 (through `Valid.reachable`) and 5.2.3.1 (through `Valid.reachableFlat`) are
+computed with a bounded number of closure rounds. If that bound were too small the predicates — and with them the
+theorems above — would be weaker than the specification's rules (a long cycle would go unnoticed). It is not: -/
+
+/-- The reference validator's `reachable D ss` is EXACTLY the set of fragment names reachable from `ss` through
+    fragment spreads at any depth (`SpecReach`: inductive definition, no fuel), for every document; likewise
+    `reachableFlat` and top-level reachability (`SpecFlatReach`, spec `CollectFields`). -/
+theorem spec_closures_exact (D : Doc) (ss : List Selection) (n : Name) :
+    (n ∈ Valid.reachable D ss ↔ SpecReach D ss n) ∧ (n ∈ Valid.reachableFlat D ss ↔ SpecFlatReach D ss n) :=
+  ⟨mem_reachable_iff D ss n, mem_reachableFlat_iff D ss n⟩
+
+/-- 5.5.2.2 without any fuel: in a document the checker accepts no fragment definition reaches itself through
+    fragment spreads, however long the path. -/
+theorem C03_no_fragment_cycle (S : Schema) (D : Doc) (hS : SchemaValid S) (h : checkOp S D = []) :
+    ∀ f ∈ Valid.frags D, ¬ SpecReach D f.sel f.name := by
+  intro f hf hr
+  have hrule := C03_rule_5_5_2_2 S D hS h
+  unfold rule_5_5_2_2 at hrule
+  have := List.all_eq_true.mp hrule f hf
+  have hmem : f.name ∈ Valid.reachable D f.sel := (mem_reachable_iff D f.sel f.name).mpr hr
+  simp [hmem] at this
+
+/-- a response key collected at the root of the selection set `ss` (spec `CollectFields`): a top-level field of `ss`
+    or of a fragment reached from the top level of `ss` -/
+def SpecRootKey (D : Doc) (ss : List Selection) (key : Name) : Prop :=
+  key ∈ keysFlat ss ∨ ∃ n f, SpecFlatReach D ss n ∧ Valid.frag? D n = some f ∧ key ∈ keysFlat f.sel
+
+/-- 5.2.3.1 without any fuel: in an accepted document with non-empty selection sets every subscription has exactly
+    one root response key — there is a key that is collected, and every collected key is that key. -/
+theorem C03_single_root_field (S : Schema) (D : Doc) (hD : Doc.NonEmptySelections D) (h : checkOp S D = []) :
+    ∀ o ∈ Valid.ops D, o.kind = .subscription → ∃ key, ∀ k, SpecRootKey D o.sel k ↔ k = key := by
+  intro o ho hk
+  have hrule := C03_rule_5_2_3_1 S D hD h
+  unfold rule_5_2_3_1 at hrule
+  have h1 := List.all_eq_true.mp hrule o ho
+  have hne : (OpKind.subscription != OpKind.subscription) = false := by decide
+  simp only [hk, hne, Bool.false_or, beq_iff_eq] at h1
+  have hiff : ∀ k, SpecRootKey D o.sel k ↔ k ∈ Valid.rootKeys D o.sel := by
+    intro k
+    unfold SpecRootKey Valid.rootKeys
+    constructor
+    · rintro (hk | ⟨n, f, hr, hf, hk⟩)
+      · exact mem_foldl_dedup_of _ [] (Or.inr (List.mem_append_left _ hk))
+      · refine mem_foldl_dedup_of _ [] (Or.inr (List.mem_append_right _ (List.mem_flatMap.mpr ⟨n, ?_, ?_⟩)))
+        · exact (mem_reachableFlat_iff D o.sel n).mpr hr
+        · simp only [hf]; exact hk
+    · intro hk
+      rcases List.mem_append.mp (mem_dedup hk) with hk | hk
+      · exact Or.inl hk
+      · obtain ⟨n, hn, hkn⟩ := List.mem_flatMap.mp hk
+        cases hf : Valid.frag? D n with
+        | none => simp [hf] at hkn
+        | some f =>
+          simp only [hf] at hkn
+          exact Or.inr ⟨n, f, (mem_reachableFlat_iff D o.sel n).mp hn, hf, hkn⟩
+  cases hl : Valid.rootKeys D o.sel with
+  | nil => rw [hl] at h1; simp at h1
+  | cons key rest =>
+    cases rest with
+    | cons _ _ => rw [hl] at h1; simp at h1
+    | nil =>
+      refine ⟨key, fun k => ?_⟩
+      rw [hiff k, hl]
+      simp
+
+/-- non-vacuity of `C03_no_fragment_cycle` / `C03_single_root_field`: the witness document has a fragment that spreads
+    another one, and a subscription whose root key is collected through a spread; a two-cycle is rejected -/
+example : SchemaValid wSchema ∧ Doc.NonEmptySelections wDoc ∧ checkOp wSchema wDoc = [] ∧ 1 ≤ nSpreadingFrags wDoc ∧
+    1 ≤ nSubsThroughSpread wDoc ∧ checkOp exSchema exCycleDoc ≠ [] := by decide +kernel
+
 /-
-OPEN — carried by K/O only (stated, not proved):
+OPEN — carried by K/O only (stated, not proved): nothing of the C03 statement.
 
-theorem C03_rule_5_2_3_1 : checkOp S D = [] → rule_5_2_3_1 S D = true     -- single subscription root field
-theorem C03_accepts_only_valid : SchemaValid S → checkOp S D = [] → ∀ r ∈ ImplementedRules, Holds r S D
-
-What is missing is only the "at least one root field" half of 5.2.3.1 (`C03_rule_5_2_3_1_at_most_one` above is the
-half a checker has to test): `rule_5_2_3_1` demands exactly one collected response key, and a `Doc` value may
-contain an empty selection set (`subscription S { }`), which the grammar (`SelectionSet = "{" Selection+ "}"`)
-excludes but the abstract syntax does not. On parsed documents "at least one" follows from non-emptiness plus the
-proved rules 5.5.2.1 (spreads defined) and 5.5.2.2 (no cycles) by following first selections; that termination
-argument (a pigeonhole over fragment names) is not formalised. The conjunction over ALL 25 implemented rules is
-open for that reason alone; `C03_accepts_only_valid_proved` is the conjunction over the other 24.
+Every implemented rule (25 of 25) is proved, the conjunction `C03_accepts_only_valid` included. What the theorems
+assume and K/O carry:
+* `Doc.NonEmptySelections D` in `C03_rule_5_2_3_1` / `C03_accepts_only_valid` — a property of the PARSER (grammar
+  `SelectionSet = "{" Selection+ "}"`), not of the checker; shown necessary by `C03_rule_5_2_3_1_needs_nonempty`.
+* the model = the Rust code (K), the reference validator = the specification (trusted transcription).
+NOT implemented by the checker (known, recorded as a theorem in `Props/C03FieldMerge.lean`): 5.3.2 Field Selection
+Merging; also 5.2.3.1b, 5.5.1.4, 5.8.4 (`extraRuleTable`).
 -/
 
 end NitroVerif.CheckOp
